@@ -130,7 +130,9 @@ def show_atom(a: Atom) -> str:
     if k == "abs":
         return f"|{a[1]}|"
     if k == "max0":
-        return f"max(0,{a[1]})"
+        return f"max(0,{Rat(*a[1])})"
+    if k == "max":
+        return f"max({Rat(*a[1])}, {Rat(*a[2])})"
     if k == "neq":
         return f"[{Rat(*a[1])}!={Rat(*a[2])}]"
     if k == "app":
@@ -266,6 +268,31 @@ def _canon_rat(r: Rat):
     return (r.n, r.d)
 
 
+def mk_max(a: Rat, b: Rat) -> Rat:
+    """max(a, b): symmetric atom; a positive monomial common to both arguments is pulled out (max(s*x, s*y) = s*max(x, y), s > 0)"""
+    if a == b:
+        return a
+    if a.is_zero():
+        return mk_max0(b)
+    if b.is_zero():
+        return mk_max0(a)
+    if a.is_poly() and b.is_poly():
+        ca, ra = _split_positive(a.n)
+        cb, rb = _split_positive(b.n)
+        # only the POSITIVE-variable part of the common factor may be pulled out (constants stay inside)
+        def monom(c):
+            (m, k), = c.t.items()
+            return m, k
+        ma, ka = monom(ca)
+        mb, kb = monom(cb)
+        if ma == mb and ma != ():
+            common = Poly({ma: Fraction(1)})
+            x, y = sorted([_canon_rat(Rat(ra.scale(ka))), _canon_rat(Rat(rb.scale(kb)))], key=repr)
+            return Rat(common) * Rat.atom(("max", x, y))
+    x, y = sorted([_canon_rat(a), _canon_rat(b)], key=repr)
+    return Rat.atom(("max", x, y))
+
+
 def mk_neq(a: Rat, b: Rat) -> Rat:
     """indicator [a != b], symmetric"""
     if a == b:
@@ -306,6 +333,9 @@ def subst(r: Rat, sigma: Callable[[str], Optional[Rat]]) -> Rat:
         if k == "max0":
             n, d = a[1]
             return mk_max0(sub_poly(n) / sub_poly(d))
+        if k == "max":
+            (n1, d1), (n2, d2) = a[1], a[2]
+            return mk_max(sub_poly(n1) / sub_poly(d1), sub_poly(n2) / sub_poly(d2))
         if k == "neq":
             (n1, d1), (n2, d2) = a[1], a[2]
             return mk_neq(sub_poly(n1) / sub_poly(d1), sub_poly(n2) / sub_poly(d2))
@@ -422,11 +452,7 @@ class Extractor:
                 return v
             if name in ("max", "np.maximum") and len(e.args) == 2:
                 a, b = self.ev(e.args[0]), self.ev(e.args[1])
-                if a.is_zero():
-                    return mk_max0(b)
-                if b.is_zero():
-                    return mk_max0(a)
-                raise Unsupported("max of two non-zero terms")
+                return mk_max(a, b)
             if self.h_call is not None:
                 r = self.h_call(self, e)
                 if r is not None:
